@@ -234,10 +234,48 @@ Decode(ty, par, b) ==
       [] OTHER -> Val("unmodelled", <<>>, ty)
 
 (***************************************************************************)
-(* Encoding of settable types (C17): Encode(ty, par, v, old) = bytes sent, *)
-(* v is a "num" value; old = current content of the register (1-byte      *)
-(* settings share a register).  Enc16(n) = two's complement, big endian.   *)
+(* Encoding of settable types (C17).  Encode(ty, par, v, old) = the bytes  *)
+(* that have to reach the setting's registers for value v; old = current   *)
+(* content of the register (1-byte settings share a register with another  *)
+(* one).  <<>> = v is outside the encodable domain of the type.            *)
 (***************************************************************************)
 Enc16(n) == LET w == IF n < 0 THEN n + 65536 ELSE n IN <<w \div 256, w % 256>>
 Enc8(n) == IF n < 0 THEN n + 256 ELSE n
+
+\* the integer v * den for a "num" value that is a multiple of 1/den (small values), else "none"
+Scaled(v, den) ==
+    LET l == Limbs(v) IN
+    IF Len(l) > 2 THEN <<>>
+    ELSE LET m == IF Len(l) = 1 THEN l[1] ELSE l[1] * 65536 + l[2] IN
+         IF Len(l) = 2 /\ l[1] > 16 THEN <<>>                  \* keeps the product below 2^31
+         ELSE IF (m * den) % v.a[1] # 0 THEN <<>>
+         ELSE <<(IF v.a[2] = 1 THEN -1 ELSE 1) * ((m * den) \div v.a[1])>>
+
+Signed(ty) == ty \in {"IntegerS", "CurrentS", "Decimal", "LongS", "ByteH", "ByteL", "Byte"}
+
+Encode(ty, par, v, old) ==
+    CASE ty \in {"Integer", "IntegerS", "Voltage", "Current", "CurrentS", "Decimal"} ->
+           LET sc == IF v.k = "num" THEN Scaled(v, Den(ty, par)) ELSE <<>> IN
+           IF sc = <<>> THEN <<>>
+           ELSE LET n == sc[1] IN
+                IF Signed(ty) THEN (IF n >= -32768 /\ n <= 32767 THEN Enc16(n) ELSE <<>>)
+                ELSE (IF n >= 0 /\ n <= 65535 THEN Enc16(n) ELSE <<>>)
+      [] ty \in {"ByteH", "ByteL"} ->
+           LET sc == IF v.k = "num" THEN Scaled(v, 1) ELSE <<>> IN
+           IF sc = <<>> \/ Len(old) # 2 THEN <<>>
+           ELSE IF sc[1] < -128 \/ sc[1] > 127 THEN <<>>
+           ELSE IF ty = "ByteH" THEN <<Enc8(sc[1]), old[2]>> ELSE <<old[1], Enc8(sc[1])>>
+      [] ty = "Long" ->
+           IF v.k # "num" \/ v.a[1] # 1 \/ v.a[2] = 1 \/ Len(Limbs(v)) > 2 THEN <<>>
+           ELSE LET l == Limbs(v) h == IF Len(l) = 2 THEN l[1] ELSE 0 lo == l[Len(l)] IN
+                <<h \div 256, h % 256, lo \div 256, lo % 256>>
+      [] ty = "Timestamp" ->
+           IF v.k # "dt" THEN <<>>
+           ELSE IF v.a[1] < 2000 \/ v.a[1] > 2255 THEN <<>>
+           ELSE <<v.a[1] - 2000, v.a[2], v.a[3], v.a[4], v.a[5], v.a[6]>>
+      [] ty \in {"EcoModeV1", "EcoModeV2", "Schedule", "PeakShavingMode"} ->
+           \* group values are handed over as raw bytes; only well-formed groups may be written
+           IF v.k # "bytes" \/ Len(v.a) # Size(ty) THEN <<>>
+           ELSE IF Decode(ty, par, v.a).k = "none" THEN <<>> ELSE v.a
+      [] OTHER -> <<>>
 =============================================================================
